@@ -51,7 +51,19 @@ CLAIM = dict(
          'termination is not a property of the code: theorems speak about cross_m fuel = Ok s. (4) the maxvol contract '
          '(valid, distinct rows, count within the dr window) is a hypothesis (property C08), validated on every '
          'recorded call. (5) the cache theorems assume the objective returns arrays of the requested length (Python '
-         'raises IndexError otherwise; the model truncates).',
+         'raises IndexError otherwise; the model truncates). (6) Cross-cutting families run in correspondence and search: argument '
+         'forms (m as int / float / np.int64 / np.int32 / np.float64; nswp, dr_min, dr_max, e, e_vld, k0, m_cache_scale as NumPy '
+         'scalars; Y0 F-ordered / strided / int64 cores / tuple; objective returning list / tuple / float32 / int array / column '
+         'vector; objective scribbling on the batch it is handed (without cache); info / cache passed vs omitted; I_vld / y_vld '
+         'as lists / int32) each compared with its canonical twin; histories of 2-3 calls on the same Y0 / info / cache objects '
+         '(also the module-level default info), each call judged against a recount from the cache contents at its entry, Y0 '
+         'bit-identical; edges (budget = cumulative batch size -1 / 0 / +1, m = 1, nswp 0 / 1, mode size 1, d = 2, saturated '
+         'ranks with dr_min >= 1, e equal to a reported value and one ulp below / above, objective x 2^-1000..2^500, Y0 x '
+         '2^-300..2^100). Kept OUT of the verdict (reported to the lead, enabled by VERIF_C06_STRICT_FORMS=1): an objective that '
+         'modifies its batch in place WITH a cache (cross raises KeyError: _func_eval reads I_new after the call), a callback '
+         'returning 1 or np.bool_(True) (ignored: the code tests `is True`, the docstring says "a true value"), and rescalings '
+         'beyond about 2^520 (objective) / 2^200 per core (Y0) where teneva.accuracy overflows (stabilised-arithmetic finding '
+         'family of C04 / C16) and cross raises OverflowError.',
     technique='Coq proof (inductive invariant over a small-step machine, schedule of the program counter, progress '
               'measure m + m_cache) + exact replay correspondence + fault enumeration (every budget / every None '
               'position / every callback sweep) + independent recount oracle on the implementation')
